@@ -2,9 +2,23 @@
     with the faithful builder model (tie flags) and with the specification: the verified well-formedness
     validator, the arc-field checker, the geometry oracle and the Grid cell oracle (property flags). *)
 From Coq Require Import ZArith QArith Qminmax List Bool.
-From CV Require Import Base.Dy PathEnc.Enc PathEnc.Builder PathEnc.Trace PathEnc.Scanner.
+From CV Require Import PathEnc.Slices Base.Dy PathEnc.Enc PathEnc.Builder PathEnc.Trace PathEnc.Scanner.
 Import ListNotations.
 Open Scope Z_scope.
+
+(** K1 on the slice model: a program of re-slicings and appends on one float64 array, run on real Go slices; the cells visible
+    through every slice at the end must be the model's *)
+Inductive slop := OSub2 (src i j : nat) | OSub3 (src i j k : nat) | OApp (src : nat) (xs : list num).
+Definition sl_step (st : heap * list slice) (o : slop) : heap * list slice :=
+  let '(h, ss) := st in
+  let get k := nth k ss (mkSl 0 0 0 0) in
+  match o with
+  | OSub2 src i j => (h, ss ++ [sub2 (get src) i j])
+  | OSub3 src i j k => (h, ss ++ [sub3 (get src) i j k])
+  | OApp src xs => let '(h', r) := Slices.append h (get src) xs in (h', ss ++ [r])
+  end.
+Definition sl_run (a0 : list num) (len0 : nat) (ops : list slop) : list (list num) :=
+  let '(h, ss) := fold_left sl_step ops ([a0], [mkSl 0 0 len0 (length a0)]) in map (view h) ss.
 
 Inductive case10 :=
 | KHist (ops : list op) (binop : Z) (ops2 : list op) (god : list num) (panic : bool)
@@ -12,6 +26,7 @@ Inductive case10 :=
 | KData (god : list num) (panic : bool)
 | KGrid (w h : num) (nx ny : Z) (r : num) (god : list num) (panic : bool)
 | KCmdLen (tab : list (Z * Z))
+| KSlice (a0 : list num) (len0 : nat) (ops : list slop) (views : list (list num))
 | KNone.
 
 Fixpoint data_eqb (a b : list num) : bool :=
@@ -22,6 +37,8 @@ Fixpoint data_eqb (a b : list num) : bool :=
   end.
 
 Definition bit (b : bool) (k : Z) : Z := if b then k else 0.
+Fixpoint views_eqb (a b : list (list num)) : bool :=
+  match a, b with [], [] => true | x :: a', y :: b' => data_eqb x y && views_eqb a' b' | _, _ => false end.
 
 (** flags:  1 tie: model data differs from Data()        2 tie: the model predicts an out-of-range panic
             4 prop: Data() is not well-formed             8 prop: an arc record violates the relational ArcTo contract
@@ -122,6 +139,8 @@ Definition judge (c : case10) : list Z :=
       [fl + judge_model (model_of Fixed (shape_ops s) 0 []) god; n; 0]
   | KData god panic =>
     if panic then [64; 0; 0] else let '(fl, n) := judge_data god in [fl; n; 0]
+  | KSlice a0 len0 ops views =>
+    [bit (negb (views_eqb (sl_run a0 len0 ops) views)) 1; Z.of_nat (length ops); 0]
   | KGrid w h nx ny r god panic =>
     if panic then [64; 0; 0]
     else let '(fl, n) := judge_data god in [fl + bit (negb (grid_ok w h nx ny r god)) 16; n; 0]
